@@ -120,8 +120,17 @@ def nodes(obj, prefix="", seen=None):
     return out
 
 
+class Plain:
+    """a plain callable (a torchvision transform, a lambda): legal member of a composition, knows nothing about strength"""
+
+    def __call__(self, x):
+        return x
+
+
 def build(spec):
     kind = spec[0]
+    if kind == "plain":
+        return Plain()
     if kind == "leaf":
         return cat.leaf_class(spec[1])(**SCALABLE[spec[1]][spec[2]])
     if kind == "compose":
@@ -131,6 +140,8 @@ def build(spec):
 
 
 def name(spec):
+    if spec[0] == "plain":
+        return "plain"
     if spec[0] == "leaf":
         return spec[1]
     return "Compose[" + ",".join(name(s) for s in spec[1:]) + "]"
@@ -146,6 +157,11 @@ def specs(tier):
             out.append(("compose", a, b))
     for a in sub[:3]:
         out.append(("compose", ("compose", a, sub[3]), sub[4]))
+    # plain callables at every position of a composition (first, middle, last, inside a nested composition)
+    pl = ("plain",)
+    for a in sub:
+        out += [("compose", pl, a), ("compose", a, pl), ("compose", a, pl, sub[0]), ("compose", pl, pl, a),
+                ("compose", ("compose", pl, a), sub[1]), ("compose", sub[1], ("compose", a, pl, sub[2]))]
     return out
 
 
